@@ -31,6 +31,8 @@ def cases(tier, rng):
             for r in range(0, 8):
                 for sur in (0, 1):
                     yield {'k': 'hash', 'Nb': Nb, 'Noc': 'Nb', 'ml': ml + sur, 'L': 8 * ml - r, 'keyc': 'absent', 'opt': ''}
+        for ml in (4095, 4096, 4099, 65539):          # long inputs
+            yield {'k': 'hash', 'Nb': Nb, 'Noc': 'Nb', 'ml': ml, 'L': None, 'keyc': 'short' if ml % 2 else 'absent', 'opt': ''}
         # bit lengths far shorter than the buffer, including L = 0 with a non-empty buffer (the quantifier is 0 <= L <= 8|M|)
         for ml in (1, 5, nb, nb + 1, 3 * nb):
             for L in sorted({0, 1, 7, 8, 9, 8 * nb, 8 * nb + 1} | {8 * ml - 8}):
